@@ -48,6 +48,8 @@ def _has_id_intersection(parent: 'Task', children: Iterable['Task']):
 
     parent_tree_ids = set([t.id for t in parent_tree])
     new_task_ids = set([t.id for t in new_tasks])
+    if len(new_task_ids) != len(set([id(t) for t in new_tasks])):
+        return True
     return len(parent_tree_ids.intersection(new_task_ids)) > 0
 
 
